@@ -78,7 +78,18 @@ class HybridRunner(ScenarioRunner):
                     output[series_name] = {} if series_name not in output.keys() else output[series_name]
                     output[series_name][t] = value
 
-        return pd.DataFrame(output).fillna(0)
+        # every recorded time gets a row and every requested state (and property aggregate) a column:
+        # a state that is empty at a time - or at all times - is reported as zero, not left out
+        columns = list(output.keys())
+        if len(agent_states) > 0:
+            if len(agent_properties) > 0:
+                requested = [state + "_" + agent_property + "_" + property_type for state in agent_states
+                             for agent_property in agent_properties for property_type in agent_property_types]
+            else:
+                requested = list(agent_states)
+            columns += [column for column in requested if column not in columns]
+
+        return pd.DataFrame(output, index=list(data.keys()), columns=columns).fillna(0)
 
     def run_scenario(self, abm_results_dict, return_format, scenarios, equations=[], agents=[], scenario_managers=[], progress_bar=False, agent_states=[], agent_properties=[], agent_property_types=[], rerun=False, widget=False):
         """
